@@ -195,6 +195,7 @@ func New(tape *Tape, opts Options) *Sim {
 		start:  time.Now(),
 	}
 	s.trace.full = opts.TraceFull
+	cur.Store(s)
 	return s
 }
 
